@@ -22,6 +22,7 @@ REPO="$W/wt" "$ROOT/tools/baseline_off.sh" > "$W/base.log" 2>&1; rb=$?
 echo "demo without patch: exit $r0 (want 0); with patch: exit $r1 (want != 0); baseline with patch: $(tail -1 "$W/base.log") rc=$rb"
 if [ $r0 -ne 0 ] || [ $r1 -eq 0 ] || [ $rb -ne 0 ]; then echo "SEED-NOT-CONFIRMED"; exit 1; fi
 echo "SEED-CONFIRMED"
+[ "${TRY_SEED_CONFIRM_ONLY:-0}" = 1 ] && exit 0
 git -C /repo apply "$D/patch.diff" || { echo "cannot apply to /repo"; exit 2; }
 for P in "$@"; do
   out=$("$ROOT/check" "$P" quick 2>&1); rc=$?
